@@ -125,6 +125,9 @@ pub struct WalletSim {
     pub last_root_err: Option<String>,
     /// retention-grid heights that were scanned when >=100 checkpoint-bearing blocks above them had already been scanned
     pub late_boundaries: BTreeSet<u32>,
+    /// heights h such that some successful scan batch started at h + 1: `update_tree` inserted (and, on the
+    /// retention grid, retained) the batch's starting frontier as a checkpoint at h in every pool
+    pub frontier_starts: BTreeSet<u32>,
 }
 
 pub fn open_conn(path: &std::path::Path, wal: bool) -> Connection {
@@ -222,6 +225,7 @@ impl WalletSim {
             txlog: BTreeMap::new(),
             last_root_err: None,
             late_boundaries: BTreeSet::new(),
+            frontier_starts: BTreeSet::new(),
         };
         let birthday = AccountBirthday::from_parts(s.chain.chain_state_at(s.cfg.base_height).unwrap(), None);
         for i in 0..s.cfg.n_accounts {
@@ -420,6 +424,9 @@ impl WalletSim {
     /// Record a successful scan of [a, b) of the current chain in the model.
     pub fn model_scanned(&mut self, a: u32, b: u32, ctx: &mut RunCtx) {
         let (notes, spent) = self.chain.ledger();
+        if b > a && a > 0 {
+            self.frontier_starts.insert(a - 1);
+        }
         if let Some(act) = self.cfg.nu6_3 {
             let step = self.cfg.retention.unwrap_or(144);
             for h in (a..b).filter(|h| *h >= act && *h % step == 0) {
@@ -509,6 +516,7 @@ impl WalletSim {
     }
 
     pub fn model_truncated(&mut self, got: u32, ctx: &mut RunCtx) {
+        self.frontier_starts.retain(|x| *x <= got);
         // blocks above `got` that were scanned on the *current* chain: their wallet transactions become orphans too
         let above: Vec<u32> = self.scanned.iter().copied().filter(|x| *x > got).collect();
         let (notes, _) = self.chain.ledger();
@@ -1096,7 +1104,10 @@ impl WalletSim {
                         if !ids.contains(&h) {
                             let newer = ids.iter().filter(|x| **x > h).count();
                             let empty_here = self.chain.block(h).map(|b| b.cms[pool.i()].is_empty()).unwrap_or(true);
-                            let key = if self.late_boundaries.contains(&h) && empty_here {
+                            // F4 explains a missing checkpoint only where nothing but the late scan of the (empty) boundary
+                            // block could have created it; a batch that *started* right above the boundary inserted and
+                            // retained its starting frontier there, whatever was pruned since
+                            let key = if self.late_boundaries.contains(&h) && empty_here && !self.frontier_starts.contains(&h) {
                                 "retention_boundary_checkpointed:boundary_block_without_commitments_in_this_pool_scanned_after_100_newer_checkpoints"
                             } else {
                                 "retention_boundary_checkpointed"
